@@ -8,3 +8,7 @@ import Precis.Props.C12
 import Precis.Props.C13
 import Precis.Props.C14
 import Precis.Props.C18
+import Precis.Props.C04
+import Precis.Props.C05
+import Precis.Props.C06
+import Precis.Props.C07
